@@ -17,7 +17,7 @@ func C12(c *Ctx) int {
 	hs := []Harness{
 		{Name: "fe.Concrete", Pkg: "internal/codegen", Func: "H_FrontEndConcrete", Reach: []string{"accepted"}, Bounds: "one fixed specification (engine smoke test)"},
 	}
-	nTpl := 12
+	nTpl := 26
 	for t := 0; t < nTpl; t++ {
 		if v := os.Getenv("VERIF_TPL"); v != "" {
 			if n, _ := strconv.Atoi(v); n != t {
